@@ -17,7 +17,7 @@ class Prop:
     def run(self, ctx):
         rng = ctx.rng('c04')
         ops, meta = [], []
-        per = 40 if ctx.tier == 'quick' else 400
+        per = 40 if ctx.tier == 'quick' else 2500
         for cname in sorted(gen.concrete_classes()):
             full = gen.total_width(gen.concrete_classes()[cname])
             for L in ([None] if full <= 424 else [None, rng.randint(80, full - 1), rng.randint(80, full - 1)]):
